@@ -101,6 +101,11 @@ struct Cfg {
     summary: bool,
     weights: Vec<(String, f64)>,
     vrates: Vec<(String, VRate)>,
+    /// streams app_frontier / app_limits / app_ksp: the [frontier] section from raw tables (replaces `road_class`),
+    /// the [termination] section as JSON, the k-shortest-paths [algorithm] section
+    frontier: Option<FCfg>,
+    term: Option<Value>,
+    ksp: Option<KspCfg>,
 }
 #[derive(Clone, Debug)]
 struct Qry {
@@ -111,6 +116,8 @@ struct Qry {
     weights: Option<Vec<(String, f64)>>,
     user: Vec<(String, Feat)>,
     wf: Option<f64>,
+    /// further top-level fields of the query, verbatim (road_classes with names, vehicle_parameters, k)
+    extra: Map<String, Value>,
 }
 
 fn feat_json(f: &Feat) -> Value {
@@ -152,6 +159,7 @@ fn cfg_json(c: &Cfg) -> Value {
         "route_fmt": c.route_fmt, "tree_fmt": c.tree_fmt, "summary": c.summary,
         "weights": wts_json(&c.weights),
         "vrates": Value::Array(c.vrates.iter().map(|(n, r)| match r { VRate::Raw => json!([n, null]), VRate::Factor(f) => json!([n, f]) }).collect()),
+        "frontier": c.frontier.as_ref().map(fcfg_to_json), "term": c.term, "ksp": c.ksp.as_ref().map(ksp_to_json),
     })
 }
 fn cfg_from(v: &Value) -> Cfg {
@@ -183,10 +191,14 @@ fn cfg_from(v: &Value) -> Cfg {
         summary: v["summary"].as_bool().unwrap(),
         weights: wts_from(&v["weights"]),
         vrates: v["vrates"].as_array().unwrap().iter().map(|x| (x[0].as_str().unwrap().to_string(), match x[1].as_f64() { None => VRate::Raw, Some(f) => VRate::Factor(f) })).collect(),
+        frontier: v.get("frontier").filter(|x| !x.is_null()).map(fcfg_from_json),
+        term: v.get("term").filter(|x| !x.is_null()).cloned(),
+        ksp: v.get("ksp").filter(|x| !x.is_null()).map(ksp_from_json),
     }
 }
 fn qry_json(q: &Qry) -> Value {
-    json!({"o": q.o, "d": q.d, "classes": q.classes, "weights": q.weights.as_ref().map(|w| wts_json(w)), "user": feats_json(&q.user), "wf": q.wf})
+    json!({"o": q.o, "d": q.d, "classes": q.classes, "weights": q.weights.as_ref().map(|w| wts_json(w)), "user": feats_json(&q.user), "wf": q.wf,
+           "extra": enc(&Value::Object(q.extra.clone()))})
 }
 fn qry_from(v: &Value) -> Qry {
     Qry {
@@ -196,6 +208,7 @@ fn qry_from(v: &Value) -> Qry {
         weights: if v["weights"].is_null() { None } else { Some(wts_from(&v["weights"])) },
         user: feats_from(&v["user"]),
         wf: v["wf"].as_f64(),
+        extra: v.get("extra").map(dec).and_then(|x| x.as_object().cloned()).unwrap_or_default(),
     }
 }
 
@@ -271,6 +284,9 @@ fn config_value(c: &Cfg, f: &Files) -> Value {
     if let (true, Some(w)) = (c.astar, c.cfg_wf) {
         alg["weight_factor"] = json!(w);
     }
+    if let Some(k) = &c.ksp {
+        alg = ksp_algorithm_json(k, alg, true);
+    }
     let traversal = match &c.tm {
         Tm::Dist(u) => json!({"type": "distance", "distance_unit": snake(u)}),
         Tm::Speed { su, du, tu } => {
@@ -306,7 +322,14 @@ fn config_value(c: &Cfg, f: &Files) -> Value {
             VRate::Factor(x) => json!({"type": "factor", "factor": x}),
         });
     }
-    let frontier = if c.road_class { json!({"type": "road_class", "road_class_input_file": f.net.road_classes}) } else { json!({"type": "no_restriction"}) };
+    let frontier = if let Some(fc) = &c.frontier {
+        let mut files = FFiles { dir: f.net.dir.clone(), n: 0 };
+        fcfg_config_json(fc, &mut files)
+    } else if c.road_class {
+        json!({"type": "road_class", "road_class_input_file": f.net.road_classes})
+    } else {
+        json!({"type": "no_restriction"})
+    };
     let inputs: Vec<Value> = match c.input {
         Inp::None => vec![],
         Inp::Vertex => vec![json!({"type": "vertex_rtree", "vertices_input_file": f.net.vertices})],
@@ -335,6 +358,9 @@ fn config_value(c: &Cfg, f: &Files) -> Value {
     top.insert("access".into(), access);
     top.insert("cost".into(), json!({"cost_aggregation": "sum", "weights": weights, "vehicle_rates": vrates}));
     top.insert("frontier".into(), frontier);
+    if let Some(t) = &c.term {
+        top.insert("termination".into(), t.clone());
+    }
     top.insert("plugin".into(), json!({"input_plugins": inputs, "output_plugins": outputs}));
     Value::Object(top)
 }
@@ -416,6 +442,9 @@ fn query_value(c: &Cfg, q: &Qry) -> Value {
     }
     if let Some(w) = q.wf {
         m.insert("weight_factor".into(), json!(w));
+    }
+    for (k, v) in &q.extra {
+        m.insert(k.clone(), v.clone());
     }
     Value::Object(m)
 }
@@ -628,6 +657,9 @@ fn base_cfg(net: Net) -> Cfg {
         summary: true,
         weights: vec![("distance".into(), 0.0), ("time".into(), 1.0)],
         vrates: vec![("distance".into(), VRate::Raw), ("time".into(), VRate::Raw)],
+        frontier: None,
+        term: None,
+        ksp: None,
     }
 }
 fn dist_cfg(net: Net, unit: &str, initial: f64) -> Cfg {
@@ -639,7 +671,7 @@ fn dist_cfg(net: Net, unit: &str, initial: f64) -> Cfg {
     c
 }
 fn plain_q(o: usize, d: Option<usize>) -> Qry {
-    Qry { o, d, classes: None, weights: None, user: vec![], wf: None }
+    Qry { o, d, classes: None, weights: None, user: vec![], wf: None, extra: Map::new() }
 }
 fn full_turn_table(base: f64) -> Vec<(String, f64)> {
     TURNS.iter().enumerate().map(|(i, t)| (t.to_string(), if i == 0 { 0.0 } else { base * i as f64 })).collect()
@@ -1517,6 +1549,1287 @@ fn gen_case(r: &mut Rng, stream: &str) -> (String, Cfg, Qry, Vec<&'static str>) 
 }
 
 
+// ================================================================================================ SECOND GROUP
+// streams app_frontier (C04), app_limits (C10), app_ksp (C13): the same application path, with the [frontier] section
+// built from raw tables the harness writes, a swept [termination] section, and the k-shortest-paths [algorithm] section.
+
+fn bits(x: f64) -> String {
+    format!("{:016x}", x.to_bits())
+}
+fn unbits(s: &str) -> f64 {
+    f64::from_bits(u64::from_str_radix(s, 16).unwrap())
+}
+/// JSON with floats as bit patterns ({"$f": "hex"}), so that a replay file reproduces them exactly
+fn enc(v: &Value) -> Value {
+    match v {
+        Value::Number(n) if !(n.is_i64() || n.is_u64()) => json!({ "$f": bits(n.as_f64().unwrap()) }),
+        Value::Array(a) => Value::Array(a.iter().map(enc).collect()),
+        Value::Object(m) => Value::Object(m.iter().map(|(k, v)| (k.clone(), enc(v))).collect()),
+        _ => v.clone(),
+    }
+}
+fn dec(v: &Value) -> Value {
+    match v {
+        Value::Object(m) if m.len() == 1 && m.contains_key("$f") => json!(unbits(m["$f"].as_str().unwrap())),
+        Value::Array(a) => Value::Array(a.iter().map(dec).collect()),
+        Value::Object(m) => Value::Object(m.iter().map(|(k, v)| (k.clone(), dec(v))).collect()),
+        _ => v.clone(),
+    }
+}
+
+// ------------------------------------------------------------------------------------------ frontier configuration
+// (private copy of the configuration type of harness/src/bin/c04.rs: same JSON, same Gallina term)
+
+#[derive(Clone, Debug)]
+enum FCfg {
+    None,
+    RoadClass { lookup: Vec<u8>, mapping: Vec<(String, u8)> },
+    /// rows of the CSV: edge_id, restriction_name, restriction_value, restriction_unit
+    Vehicle { rows: Vec<(usize, String, f64, String)> },
+    Turn { pairs: Vec<(usize, usize)> },
+    Combined(Vec<FCfg>),
+}
+fn fcfg_to_json(c: &FCfg) -> Value {
+    match c {
+        FCfg::None => json!({"t": "none"}),
+        FCfg::RoadClass { lookup, mapping } => json!({"t": "rc", "lookup": lookup, "mapping": mapping}),
+        FCfg::Vehicle { rows } => json!({"t": "veh", "rows": rows.iter().map(|(e, n, v, u)| json!([e, n, bits(*v), u, v])).collect::<Vec<_>>()}),
+        FCfg::Turn { pairs } => json!({"t": "turn", "pairs": pairs}),
+        FCfg::Combined(inner) => json!({"t": "comb", "inner": inner.iter().map(fcfg_to_json).collect::<Vec<_>>()}),
+    }
+}
+fn fcfg_from_json(v: &Value) -> FCfg {
+    match v["t"].as_str().unwrap() {
+        "none" => FCfg::None,
+        "rc" => FCfg::RoadClass { lookup: serde_json::from_value(v["lookup"].clone()).unwrap(), mapping: serde_json::from_value(v["mapping"].clone()).unwrap() },
+        "veh" => FCfg::Vehicle {
+            rows: v["rows"].as_array().unwrap().iter().map(|r| (r[0].as_u64().unwrap() as usize, r[1].as_str().unwrap().to_string(), unbits(r[2].as_str().unwrap()), r[3].as_str().unwrap().to_string())).collect(),
+        },
+        "turn" => FCfg::Turn { pairs: serde_json::from_value(v["pairs"].clone()).unwrap() },
+        "comb" => FCfg::Combined(v["inner"].as_array().unwrap().iter().map(fcfg_from_json).collect()),
+        t => panic!("unknown frontier tag {}", t),
+    }
+}
+fn coq_fcfg(c: &FCfg) -> String {
+    match c {
+        FCfg::None => "CNoRestriction".into(),
+        FCfg::RoadClass { lookup, mapping } => format!("(CRoadClass {} {})", coq_list(lookup, |x| x.to_string()), coq_list(mapping, |(k, v)| format!("({}, {})", coq_string(k), v))),
+        FCfg::Vehicle { rows } => format!("(CVehicle FN {})", coq_list(rows, |(e, n, v, u)| format!("({}, {}, {}, {})", e, coq_string(n), coq_f64(*v), coq_string(u)))),
+        FCfg::Turn { pairs } => format!("(CTurn {})", coq_list(pairs, |(a, b)| format!("({}, {})", a, b))),
+        FCfg::Combined(inner) => format!("(CCombined FN {})", coq_list(inner, coq_fcfg)),
+    }
+}
+fn fcfg_kind(c: &FCfg) -> &'static str {
+    match c {
+        FCfg::None => "none",
+        FCfg::RoadClass { .. } => "road_class",
+        FCfg::Vehicle { .. } => "vehicle",
+        FCfg::Turn { .. } => "turn",
+        FCfg::Combined(_) => "combined",
+    }
+}
+fn fcfg_has(c: &FCfg, k: &str) -> bool {
+    match c {
+        FCfg::Combined(inner) => k == "combined" || inner.iter().any(|i| fcfg_has(i, k)),
+        _ => fcfg_kind(c) == k,
+    }
+}
+struct FFiles {
+    dir: PathBuf,
+    n: usize,
+}
+impl FFiles {
+    fn path(&mut self, ext: &str) -> PathBuf {
+        self.n += 1;
+        self.dir.join(format!("frontier{}.{}", self.n, ext))
+    }
+}
+/// the [frontier] section the application reads, with the raw tables written to files next to the network
+fn fcfg_config_json(c: &FCfg, files: &mut FFiles) -> Value {
+    match c {
+        FCfg::None => json!({"type": "no_restriction"}),
+        FCfg::RoadClass { lookup, mapping } => {
+            let p = files.path("txt");
+            std::fs::write(&p, lookup.iter().map(|x| format!("{}\n", x)).collect::<String>()).unwrap();
+            let mut j = json!({"type": "road_class", "road_class_input_file": p.to_str().unwrap()});
+            if !mapping.is_empty() {
+                let m: Map<String, Value> = mapping.iter().map(|(k, v)| (k.clone(), json!(v))).collect();
+                j["road_class_parser"] = json!({ "mapping": m });
+            }
+            j
+        }
+        FCfg::Vehicle { rows } => {
+            let p = files.path("csv");
+            let mut body = String::from("edge_id,restriction_name,restriction_value,restriction_unit\n");
+            for (e, n, v, u) in rows {
+                body.push_str(&format!("{},{},{:?},{}\n", e, n, v, u));
+            }
+            std::fs::write(&p, body).unwrap();
+            json!({"type": "vehicle_restriction", "vehicle_restriction_input_file": p.to_str().unwrap()})
+        }
+        FCfg::Turn { pairs } => {
+            let p = files.path("csv");
+            let mut body = String::from("prev_edge_id,next_edge_id\n");
+            for (a, b) in pairs {
+                body.push_str(&format!("{},{}\n", a, b));
+            }
+            std::fs::write(&p, body).unwrap();
+            json!({"type": "turn_restriction", "turn_restriction_input_file": p.to_str().unwrap()})
+        }
+        FCfg::Combined(inner) => json!({"type": "combined", "models": inner.iter().map(|c| fcfg_config_json(c, files)).collect::<Vec<_>>()}),
+    }
+}
+
+const DIST_UNITS: [&str; 5] = ["meters", "kilometers", "miles", "inches", "feet"];
+const DIST_M: [f64; 5] = [1.0, 1000.0, 1609.344, 0.0254, 0.3048];
+const WEIGHT_UNITS: [&str; 3] = ["pounds", "tons", "kg"];
+const WEIGHT_KG: [f64; 3] = [0.45359237, 907.18474, 1.0];
+/// (restriction name, vehicle_parameters field, is weight, per axle)
+const KINDS: [(&str, &str, bool, bool); 6] = [
+    ("maximum_total_weight", "total_weight", true, false),
+    ("maximum_weight_per_axle", "total_weight", true, true),
+    ("maximum_length", "total_length", false, false),
+    ("maximum_width", "width", false, false),
+    ("maximum_height", "height", false, false),
+    ("maximum_trailer_length", "trailer_length", false, false),
+];
+const CLASS_NAMES: [&str; 6] = ["motorway", "trunk", "primary", "secondary", "residential", "track"];
+#[derive(Clone, Debug)]
+struct Vehicle {
+    height: (f64, usize),
+    width: (f64, usize),
+    total_length: (f64, usize),
+    trailer_length: (f64, usize),
+    total_weight: (f64, usize),
+    axles: u64,
+}
+impl Vehicle {
+    fn query(&self) -> Value {
+        json!({
+            "height": [self.height.0, DIST_UNITS[self.height.1]],
+            "width": [self.width.0, DIST_UNITS[self.width.1]],
+            "total_length": [self.total_length.0, DIST_UNITS[self.total_length.1]],
+            "trailer_length": [self.trailer_length.0, DIST_UNITS[self.trailer_length.1]],
+            "total_weight": [self.total_weight.0, WEIGHT_UNITS[self.total_weight.1]],
+            "number_of_axles": self.axles,
+        })
+    }
+    fn field(&self, f: &str) -> (f64, usize) {
+        match f {
+            "height" => self.height,
+            "width" => self.width,
+            "total_length" => self.total_length,
+            "trailer_length" => self.trailer_length,
+            _ => self.total_weight,
+        }
+    }
+    /// the vehicle's quantity limited by kind `k` in unit index `ru` (approximately: only used to place generated limits
+    /// clearly below / above the comparison boundary; the judgement is made in Coq from the raw numbers)
+    fn converted(&self, k: usize, ru: usize) -> f64 {
+        let (_, field, is_weight, per_axle) = KINDS[k];
+        let (v, vu) = self.field(field);
+        if is_weight {
+            let w = v * WEIGHT_KG[vu] / WEIGHT_KG[ru];
+            if per_axle { w / self.axles as f64 } else { w }
+        } else {
+            v * DIST_M[vu] / DIST_M[ru]
+        }
+    }
+}
+fn gen_value(r: &mut Rng) -> f64 {
+    if r.chance(1, 4) {
+        return *r.pick(&[1.0, 2.5, 4.0, 13.5, 80000.0, 36.0, 53.0, 8.5, 0.5, 10.0, 12000.0]);
+    }
+    let e = r.range(-2, 5);
+    10f64.powi(e as i32) * (1.0 + r.unit_f64())
+}
+fn gen_vehicle(r: &mut Rng) -> Vehicle {
+    Vehicle {
+        height: (gen_value(r), r.below(5) as usize),
+        width: (gen_value(r), r.below(5) as usize),
+        total_length: (gen_value(r), r.below(5) as usize),
+        trailer_length: (gen_value(r), r.below(5) as usize),
+        total_weight: (gen_value(r), r.below(3) as usize),
+        axles: 1 + r.below(6),
+    }
+}
+fn truck() -> Vehicle {
+    Vehicle { height: (4.0, 0), width: (2.5, 0), total_length: (20.0, 0), trailer_length: (13.5, 0), total_weight: (36.0, 1), axles: 5 }
+}
+/// restriction rows for `m` edges in mixed units: most limits clearly above the vehicle's quantity, some clearly below
+/// (factors 0.7 / 0.999 / 1.001 / 1..2: the specification is undecided only within 1e-9 of a limit)
+fn gen_vehicle_rows(r: &mut Rng, veh: &Vehicle, m: usize, nrows: usize) -> Vec<(usize, String, f64, String)> {
+    (0..nrows)
+        .map(|_| {
+            let e = r.below(m as u64) as usize;
+            let k = r.below(6) as usize;
+            let ru = if KINDS[k].2 { r.below(3) as usize } else { r.below(5) as usize };
+            let unit = if KINDS[k].2 { WEIGHT_UNITS[ru] } else { DIST_UNITS[ru] };
+            let f = match r.below(7) {
+                0 => 0.999,
+                1 => 1.001,
+                2 | 3 => 0.7,
+                _ => 1.0 + r.unit_f64(),
+            };
+            (e, KINDS[k].0.to_string(), veh.converted(k, ru) * f, unit.to_string())
+        })
+        .collect()
+}
+/// a frontier configuration for a network: about a quarter of the edges refused by class / restriction, restricted
+/// turns among adjacent pairs (travel order); returns the configuration and the query fields it needs
+fn gen_frontier(r: &mut Rng, net: &Net) -> (FCfg, Map<String, Value>) {
+    let m = net.edges.len().max(1);
+    let veh = gen_vehicle(r);
+    let mut query = Map::new();
+    let mut leaves: Vec<FCfg> = vec![];
+    let pick = r.below(8);
+    let (want_rc, want_veh, want_turn) = match pick {
+        0 | 1 => (true, false, false),
+        2 => (false, true, false),
+        3 => (false, false, true),
+        4 => (true, true, false),
+        5 => (true, false, true),
+        6 => (false, true, true),
+        _ => (true, true, true),
+    };
+    if want_rc {
+        let nclasses = 2 + r.below(4) as u8;
+        let lookup: Vec<u8> = (0..m).map(|_| if r.chance(2, 3) { 0 } else { r.below(nclasses as u64) as u8 }).collect();
+        let with_mapping = r.chance(1, 2);
+        let mapping: Vec<(String, u8)> = if with_mapping { (0..nclasses).map(|c| (CLASS_NAMES[c as usize].to_string(), c)).collect() } else { vec![] };
+        let mut allowed: Vec<u8> = (0..nclasses).filter(|c| if *c == 0 { r.chance(9, 10) } else { r.chance(1, 2) }).collect();
+        if r.chance(1, 6) {
+            if let Some(x) = allowed.first().copied() {
+                allowed.push(x);
+            }
+        }
+        if !r.chance(1, 10) {
+            if with_mapping && r.chance(1, 2) {
+                query.insert("road_classes".into(), json!(allowed.iter().map(|c| CLASS_NAMES[*c as usize]).collect::<Vec<_>>()));
+            } else {
+                query.insert("road_classes".into(), json!(allowed));
+            }
+        }
+        leaves.push(FCfg::RoadClass { lookup, mapping });
+    }
+    if want_veh {
+        query.insert("vehicle_parameters".into(), veh.query());
+        let nrows = 1 + r.below(m as u64) as usize;
+        leaves.push(FCfg::Vehicle { rows: gen_vehicle_rows(r, &veh, m, nrows) });
+    }
+    if want_turn {
+        let pct = 5 + r.below(40);
+        let mut pairs = vec![];
+        for a in 0..net.edges.len() {
+            for b in 0..net.edges.len() {
+                if net.edges[a].1 == net.edges[b].0 && r.below(100) < pct {
+                    pairs.push((a, b));
+                }
+            }
+        }
+        pairs.truncate(80);
+        leaves.push(FCfg::Turn { pairs });
+    }
+    if r.chance(1, 8) {
+        leaves.push(FCfg::None);
+    }
+    r.shuffle(&mut leaves);
+    let cfg = if leaves.len() == 1 && r.chance(3, 4) { leaves.pop().unwrap() } else { FCfg::Combined(leaves) };
+    (cfg, query)
+}
+
+// ------------------------------------------------------------------------------------------ k-shortest-paths section
+
+/// thresholds as (binary64 value written to the configuration, the configured decimal as a rational num/den)
+const THRESHOLDS: [(f64, u32, u32); 5] = [(0.0, 0, 1), (0.3, 3, 10), (0.6, 3, 5), (0.9, 9, 10), (1.0, 1, 1)];
+#[derive(Clone, Debug, PartialEq)]
+enum KSim {
+    AcceptAll,
+    EdgeId(usize),
+    Distance(usize),
+}
+#[derive(Clone, Debug, PartialEq)]
+enum KTerm {
+    Exact,
+    MaxIteration(u64),
+    Factor(u64),
+}
+#[derive(Clone, Debug)]
+struct KspCfg {
+    yens: bool,
+    k: usize,
+    /// None = the key is left out of the configuration (the default applies)
+    sim: Option<KSim>,
+    term: Option<KTerm>,
+}
+fn ksp_to_json(k: &KspCfg) -> Value {
+    json!({"yens": k.yens, "k": k.k,
+           "sim": match &k.sim { None => Value::Null, Some(KSim::AcceptAll) => json!("accept_all"), Some(KSim::EdgeId(i)) => json!({"edge_id": i, "threshold": THRESHOLDS[*i].0}), Some(KSim::Distance(i)) => json!({"distance": i, "threshold": THRESHOLDS[*i].0}) },
+           "term": match &k.term { None => Value::Null, Some(KTerm::Exact) => json!("exact"), Some(KTerm::MaxIteration(m)) => json!({"max": m}), Some(KTerm::Factor(f)) => json!({"factor": f}) }})
+}
+fn ksp_from_json(v: &Value) -> KspCfg {
+    KspCfg {
+        yens: v["yens"].as_bool().unwrap_or(false),
+        k: v["k"].as_u64().unwrap() as usize,
+        sim: if v["sim"].is_null() {
+            None
+        } else if v["sim"].is_string() {
+            Some(KSim::AcceptAll)
+        } else if let Some(i) = v["sim"].get("edge_id") {
+            Some(KSim::EdgeId(i.as_u64().unwrap() as usize))
+        } else {
+            Some(KSim::Distance(v["sim"]["distance"].as_u64().unwrap() as usize))
+        },
+        term: if v["term"].is_null() {
+            None
+        } else if v["term"].is_string() {
+            Some(KTerm::Exact)
+        } else if let Some(m) = v["term"].get("max") {
+            Some(KTerm::MaxIteration(m.as_u64().unwrap()))
+        } else {
+            Some(KTerm::Factor(v["term"]["factor"].as_u64().unwrap()))
+        },
+    }
+}
+/// the [algorithm] section; `with_sim` = false leaves the similarity function out (the default AcceptAll applies)
+fn ksp_algorithm_json(k: &KspCfg, underlying: Value, with_sim: bool) -> Value {
+    let mut m = Map::new();
+    m.insert("type".into(), json!(if k.yens { "yens" } else { "ksp_single_via" }));
+    m.insert("k".into(), json!(k.k));
+    m.insert("underlying".into(), underlying);
+    if let (true, Some(s)) = (with_sim, &k.sim) {
+        m.insert("similarity".into(), match s {
+            KSim::AcceptAll => json!({"type": "accept_all"}),
+            KSim::EdgeId(i) => json!({"type": "edge_id_cosine_similarity", "threshold": THRESHOLDS[*i].0}),
+            KSim::Distance(i) => json!({"type": "distance_weighted_cosine_similarity", "threshold": THRESHOLDS[*i].0}),
+        });
+    }
+    if let Some(t) = &k.term {
+        m.insert("termination".into(), match t {
+            KTerm::Exact => json!({"type": "exact"}),
+            KTerm::MaxIteration(x) => json!({"type": "max_iteration", "max": x}),
+            KTerm::Factor(x) => json!({"type": "factor", "factor": x}),
+        });
+    }
+    Value::Object(m)
+}
+
+// ------------------------------------------------------------------------------------------ responses with several routes
+
+struct RouteOut {
+    path: Vec<usize>,
+    recs: Vec<EdgeTraversal>,
+    summary: Vec<(String, f64)>,
+}
+/// `route` of a successful response: null (no route), one object, or an array of objects
+fn parse_routes(v: &Value, malformed: &mut Vec<String>) -> Vec<RouteOut> {
+    let one = |route: &Value, malformed: &mut Vec<String>| -> RouteOut {
+        let mut ro = RouteOut { path: vec![], recs: vec![], summary: kv_f64(route.get("traversal_summary").unwrap_or(&Value::Null)) };
+        match route.get("path").and_then(|p| p.as_array()) {
+            None => malformed.push("route without path".into()),
+            Some(p) => {
+                for x in p {
+                    if let Some(e) = x.as_u64() {
+                        ro.path.push(e as usize);
+                    } else if let Ok(et) = serde_json::from_value::<EdgeTraversal>(x.clone()) {
+                        ro.path.push(et.edge_id.0);
+                        ro.recs.push(et);
+                    } else {
+                        malformed.push("path element".into());
+                    }
+                }
+            }
+        }
+        ro
+    };
+    match v.get("route") {
+        None | Some(Value::Null) => vec![],
+        Some(r @ Value::Object(_)) => vec![one(r, malformed)],
+        Some(Value::Array(a)) => {
+            if a.len() < 2 {
+                malformed.push(format!("route array of {} element(s)", a.len()));
+            }
+            a.iter()
+                .map(|r| {
+                    if !r.is_object() {
+                        malformed.push("route array element".into());
+                    }
+                    one(r, malformed)
+                })
+                .collect()
+        }
+        Some(_) => {
+            malformed.push("route is neither object, array nor null".into());
+            vec![]
+        }
+    }
+}
+
+fn desc2(cx: &Ctx, id: usize, fam: &str, c: &Cfg, q: &Qry, short: &str) -> Value {
+    json!({"id": id, "error_text": cx.last_err.chars().take(300).collect::<String>(), "family": fam, "stream": cx.stream, "cfg": cfg_json(c), "qry": qry_json(q),
+           "query": {"orient": if c.edge_oriented { "edge" } else { "vertex" }, "dir": "forward", "json": query_value(c, q)},
+           "impl_short": short.chars().take(240).collect::<String>()})
+}
+fn build_failed2(cx: &mut Ctx, fam: &str, c: &Cfg, q: &Qry, e: &str, tags: &[&str]) {
+    let id = cx.st.next_id();
+    cx.st.count("BUILD-FAILED");
+    let d = desc2(cx, id, fam, c, q, e);
+    let terms = tags.iter().map(|t| format!("E2E.line_echo \"{}\" {}%Z \"the generated configuration builds\"", t, id)).collect();
+    cx.st.case(terms, vec![format!("I {} BUILD-FAILED {}", id, e.replace('\n', " "))], d);
+}
+
+// ------------------------------------------------------------------------------------------ app_frontier (C04)
+
+const FHEADER: &str = "From Coq Require Import ZArith QArith List String Floats.\nFrom RC Require Import Base.Show Base.Num Base.Res Base.Json Model.Units Model.Frontier Model.Search Model.SearchRun Model.E2ERun.\nImport ListNotations Frontier.\nOpen Scope nat_scope.";
+
+/// what the application's own frontier model (built by its service from this query) says about every edge without a
+/// previous edge: number of refused edges and the list of them (histogram, generator guidance; never part of a verdict)
+fn refused_by_app(app: &Arc<CompassApp>, c: &Cfg, query: &Value) -> Option<Vec<usize>> {
+    let app2 = app.clone();
+    let q2 = query.clone();
+    let m = c.net.edges.len();
+    catch(AssertUnwindSafe(move || {
+        let si = app2.search_app.build_search_instance(&q2).ok()?;
+        let st = si.state_model.initial_state().ok()?;
+        let mut out = vec![];
+        for e in 0..m {
+            let edge = si.directed_graph.get_edge(&EdgeId(e)).ok()?;
+            if let Ok(false) = si.frontier_model.valid_frontier(edge, &st, None, &si.state_model) {
+                out.push(e);
+            }
+        }
+        Some(out)
+    }))
+    .ok()
+    .flatten()
+}
+
+fn add_frontier(cx: &mut Ctx, fam: &str, c: &Cfg, q: &Qry) {
+    let id = cx.st.next_id();
+    let app = match build(c, &cx.work.join(format!("c{}", id))) {
+        Ok(a) => a,
+        Err(e) => return build_failed2(cx, fam, c, q, &e, &["S", "M"]),
+    };
+    let query = query_value(c, q);
+    let r = run_query(&app, &query);
+    let s = semantics(c, q, &r);
+    cx.last_err = r.err.clone();
+    let core = core_compare(&app, c, &s, &r, &query);
+    let fc = c.frontier.clone().unwrap_or(FCfg::None);
+    let mut tree: Vec<(Option<usize>, usize)> = r.tree.iter().map(|(p, e, _)| (*p, *e)).collect();
+    tree.sort_by_key(|x| x.1);
+    let shape = if !r.malformed.is_empty() {
+        format!("bad:{}", r.malformed.join("+"))
+    } else if r.status == "Ok" && c.tree_fmt.is_some() && !r.has_tree && !(c.edge_oriented && s.d == Some(s.o)) {
+        "bad:no tree in the response".into()
+    } else if r.status == "Ok" && q.d.is_some() && !r.has_route {
+        "bad:no route in the response".into()
+    } else {
+        "ok".into()
+    };
+    let body = format!(
+        "path={} tree={}",
+        if r.has_route { show_list(&r.path, |e| e.to_string()) } else { "None".into() },
+        if r.has_tree { show_list(&tree, |(p, e)| format!("({},{})", p.map(|x| x.to_string()).unwrap_or("_".into()), e)) } else { "None".into() }
+    );
+    let payload = format!("{} {} core={} shape={}", r.status, body, core, shape);
+    let expected = format!("{} {} core=agree shape=ok", r.status, body);
+    let qj = coq_json(&query);
+    let cfg_t = coq_fcfg(&fc);
+    let terms = vec![
+        format!(
+            "E2E.line_frontier {}%Z {} {} {} {} {} {} {} {} {} {} {}",
+            id,
+            c.net.coords.len(),
+            coq_edges(c),
+            coq_bool(c.edge_oriented),
+            s.o,
+            nat_opt(&s.d),
+            cfg_t,
+            qj,
+            coq_string(&r.status),
+            if r.has_tree { format!("[{}]", coq_list(&tree, |(p, e)| format!("({}, {})", nat_opt(p), e))) } else { "[]".into() },
+            if r.has_route { format!("[{}]", coq_list(&r.path, |e| e.to_string())) } else { "[]".into() },
+            coq_string(&expected)
+        ),
+        format!("E2E.line_frontier_M {}%Z {} {} {} {}", id, cfg_t, qj, coq_string(&r.status), coq_string(&expected)),
+    ];
+    let refused = refused_by_app(&app, c, &query);
+    let st = &mut cx.st;
+    st.count(&format!("family:{}", fam.split('#').next().unwrap_or(fam)));
+    st.count(&format!("status:{}", r.status));
+    st.count(&format!("orient:{}", if c.edge_oriented { "edge" } else { "vertex" }));
+    st.count(&format!("alg:{}", if c.astar { "a*" } else { "dijkstra" }));
+    st.count(&format!("traversal:{}", match c.tm { Tm::Dist(_) => "distance", Tm::Speed { .. } => "speed_table" }));
+    st.count(&format!("top:{}", fcfg_kind(&fc)));
+    for kd in ["road_class", "vehicle", "turn", "combined"] {
+        if fcfg_has(&fc, kd) {
+            st.count(&format!("has:{}", kd));
+        }
+    }
+    st.count(&format!("road_classes:{}", match q.extra.get("road_classes") { None => "absent", Some(Value::Array(a)) if a.iter().all(|x| x.is_string()) && !a.is_empty() => "names", Some(Value::Array(_)) => "numbers", _ => "other" }));
+    st.count(&format!("destination:{}", if q.d.is_some() { "some" } else { "none" }));
+    st.count(&format!("tree_fmt:{}", c.tree_fmt.clone().unwrap_or("none".into())));
+    st.count(&format!("n:{}", (c.net.coords.len() + 7) / 8 * 8));
+    st.count(&format!("route_edges:{}", if r.path.len() > 6 { "7+".to_string() } else { r.path.len().to_string() }));
+    st.count(&format!("tree_size:{}", (r.tree.len() + 3) / 4 * 4));
+    st.count(&format!("core:{}", core.split(':').next().unwrap_or("")));
+    let nref = refused.as_ref().map(|x| x.len()).unwrap_or(0);
+    st.count(&format!("refused_edges_pct:{}", if refused.is_none() { "n/a".to_string() } else if c.net.edges.is_empty() { "0".into() } else { ((nref * 100 / c.net.edges.len() + 9) / 10 * 10).to_string() }));
+    // non-trivial: the frontier refuses some edge or has turn pairs, and the search returns a tree of >= 3 entries, a route
+    // of >= 2 edges or no path; or the query is refused
+    if ((nref > 0 || fcfg_has(&fc, "turn")) && (r.path.len() >= 2 || r.tree.len() >= 3 || r.status == "nopath")) || r.status == "err" {
+        st.mark_nontrivial(&format!("{}|{}", cfg_json(c), qry_json(q)));
+    }
+    let d = desc2(cx, id, fam, c, q, &payload);
+    cx.st.case(terms, vec![format!("I {} {}", id, payload)], d);
+}
+
+/// four cells in a row, the short way 0-1-2-3 (and back) and a long direct edge 0->3 / 3->0
+fn bypass_net() -> Net {
+    let edges = [(0usize, 1usize), (1, 2), (2, 3), (0, 3), (3, 2), (2, 1), (1, 0), (3, 0)];
+    net_of((0..4).map(cell).collect(), &edges, |i| if i == 3 || i == 7 { 3.0 } else { 1.05 + 0.01 * i as f64 }, |i| SPEEDS[i % 8], |_| 0)
+}
+fn frontier_shapes() -> Vec<(String, Cfg, Qry)> {
+    let mut out: Vec<(String, Cfg, Qry)> = vec![];
+    let net = bypass_net();
+    let named: Vec<(String, u8)> = vec![("road".into(), 0), ("path".into(), 3), ("track".into(), 255)];
+    let rc = |mapping: &[(String, u8)]| FCfg::RoadClass { lookup: vec![0, 3, 0, 0, 0, 3, 0, 0], mapping: mapping.to_vec() };
+    let veh = truck();
+    let vehc = FCfg::Vehicle {
+        rows: vec![
+            (1, "maximum_height".into(), 13.0, "feet".into()),
+            (5, "maximum_weight_per_axle".into(), 7.0, "tons".into()),
+            (0, "maximum_height".into(), 14.0, "feet".into()),
+            (2, "maximum_total_weight".into(), 80000.0, "pounds".into()),
+            (4, "maximum_length".into(), 0.02, "miles".into()),
+            (6, "maximum_width".into(), 102.0, "inches".into()),
+        ],
+    };
+    let turn = FCfg::Turn { pairs: vec![(0, 1), (4, 5), (1, 0), (5, 4)] };
+    let ex = |kv: &[(&str, Value)]| -> Map<String, Value> { kv.iter().map(|(k, v)| (k.to_string(), v.clone())).collect() };
+    for (ai, astar) in [false, true].into_iter().enumerate() {
+        let mut mk = |name: &str, fc: FCfg, extra: Map<String, Value>, eo: bool, o: usize, d: Option<usize>| {
+            let mut c = dist_cfg(net.clone(), "Meters", 0.0);
+            c.astar = astar;
+            c.frontier = Some(fc);
+            c.edge_oriented = eo;
+            c.tree_fmt = Some(if (out.len() + ai) % 3 == 0 { "edge_id".into() } else { "json".into() });
+            let mut q = plain_q(o, d);
+            q.extra = extra;
+            out.push((name.to_string(), c, q));
+        };
+        mk("class_numbers_forbid_short_path", rc(&[]), ex(&[("road_classes", json!([0]))]), false, 0, Some(3));
+        mk("class_names_forbid_short_path", rc(&named), ex(&[("road_classes", json!(["road"]))]), false, 0, Some(3));
+        mk("class_numbers_with_mapping", rc(&named), ex(&[("road_classes", json!([0, 0]))]), false, 3, Some(0));
+        mk("class_names_allow_all", rc(&named), ex(&[("road_classes", json!(["path", "road", "track"]))]), false, 0, Some(3));
+        mk("class_list_absent", rc(&named), Map::new(), false, 0, Some(3));
+        mk("class_list_empty", rc(&[]), ex(&[("road_classes", json!([]))]), false, 0, Some(3));
+        mk("class_other_only", rc(&[]), ex(&[("road_classes", json!([3, 7]))]), false, 0, Some(3));
+        mk("class_no_destination", rc(&named), ex(&[("road_classes", json!(["road"]))]), false, 0, None);
+        mk("class_names_without_mapping", rc(&[]), ex(&[("road_classes", json!(["road"]))]), false, 0, Some(3));
+        mk("class_unknown_name", rc(&named), ex(&[("road_classes", json!(["road", "lane"]))]), false, 0, Some(3));
+        mk("class_mixed_list", rc(&named), ex(&[("road_classes", json!([0, "path"]))]), false, 0, Some(3));
+        mk("class_out_of_range", rc(&[]), ex(&[("road_classes", json!([0, 256]))]), false, 0, Some(3));
+        mk("vehicle_forbids_short_path", vehc.clone(), ex(&[("vehicle_parameters", veh.query())]), false, 0, Some(3));
+        mk("vehicle_back", vehc.clone(), ex(&[("vehicle_parameters", veh.query())]), false, 3, Some(0));
+        mk("vehicle_no_destination", vehc.clone(), ex(&[("vehicle_parameters", veh.query())]), false, 0, None);
+        mk("vehicle_parameters_missing", vehc.clone(), Map::new(), false, 0, Some(3));
+        let mut small = veh.clone();
+        small.height = (3.0, 0);
+        small.total_weight = (30000.0, 2);
+        mk("vehicle_small_passes", vehc.clone(), ex(&[("vehicle_parameters", small.query())]), false, 0, Some(3));
+        let mut no_axles = veh.query();
+        no_axles.as_object_mut().unwrap().remove("number_of_axles");
+        mk("vehicle_field_missing", vehc.clone(), ex(&[("vehicle_parameters", no_axles)]), false, 0, Some(3));
+        mk("turn_forbids_short_path", turn.clone(), Map::new(), false, 0, Some(3));
+        mk("turn_back", turn.clone(), Map::new(), false, 3, Some(0));
+        mk("turn_no_destination", turn.clone(), Map::new(), false, 0, None);
+        mk("combined_class_turn", FCfg::Combined(vec![rc(&named), turn.clone()]), ex(&[("road_classes", json!(["road", "path"]))]), false, 0, Some(3));
+        mk("combined_turn_vehicle", FCfg::Combined(vec![turn.clone(), vehc.clone()]), ex(&[("vehicle_parameters", small.query())]), false, 0, Some(3));
+        mk("combined_all", FCfg::Combined(vec![rc(&named), vehc.clone(), turn.clone()]), ex(&[("road_classes", json!([0])), ("vehicle_parameters", veh.query())]), false, 0, Some(3));
+        mk("combined_all_permissive", FCfg::Combined(vec![FCfg::None, rc(&[]), vehc.clone()]), ex(&[("road_classes", json!([0, 3])), ("vehicle_parameters", small.query())]), false, 0, Some(3));
+        mk("combined_inner_refuses_query", FCfg::Combined(vec![turn.clone(), vehc.clone()]), ex(&[("road_classes", json!([0]))]), false, 0, Some(3));
+        mk("combined_empty", FCfg::Combined(vec![]), Map::new(), false, 0, Some(3));
+        mk("everything_forbidden", rc(&[]), ex(&[("road_classes", json!([9]))]), false, 0, Some(3));
+        // edge-oriented (the query's own edges are never shown to the frontier model: class K_query_edges)
+        mk("eo_origin_edge_forbidden", FCfg::RoadClass { lookup: vec![1, 0, 0, 0, 0, 0, 0, 0], mapping: vec![] }, ex(&[("road_classes", json!([0]))]), true, 0, Some(2));
+        mk("eo_destination_edge_forbidden", FCfg::RoadClass { lookup: vec![0, 0, 1, 0, 0, 0, 0, 0], mapping: vec![] }, ex(&[("road_classes", json!([0]))]), true, 0, Some(2));
+        mk("eo_interior_edge_forbidden", FCfg::RoadClass { lookup: vec![0, 1, 0, 0, 0, 0, 0, 0], mapping: vec![] }, ex(&[("road_classes", json!([0]))]), true, 0, Some(2));
+        mk("eo_turn_at_origin", FCfg::Turn { pairs: vec![(0, 1)] }, Map::new(), true, 0, Some(2));
+        mk("eo_all_permitted", rc(&named), ex(&[("road_classes", json!(["road", "path"]))]), true, 0, Some(2));
+    }
+    // every unit pair of the vehicle's quantity and the row's unit, limit clearly above / below: chain 0-1-2-..., the
+    // restricted edge is the only way
+    let mut k = 0usize;
+    for kind in 0..6 {
+        let nunits = if KINDS[kind].2 { 3 } else { 5 };
+        for vu in 0..nunits {
+            for ru in 0..nunits {
+                k += 1;
+                // one pair in three (every kind and every unit still occurs on both sides)
+                if k % 3 != 1 {
+                    continue;
+                }
+                let mut v = truck();
+                match KINDS[kind].1 {
+                    "height" => v.height.1 = vu,
+                    "width" => v.width.1 = vu,
+                    "total_length" => v.total_length.1 = vu,
+                    "trailer_length" => v.trailer_length.1 = vu,
+                    _ => v.total_weight.1 = vu,
+                }
+                let unit = if KINDS[kind].2 { WEIGHT_UNITS[ru] } else { DIST_UNITS[ru] };
+                let below = (k / 3) % 3 == 0;
+                let lim = v.converted(kind, ru) * if below { 0.99 } else { 1.01 };
+                let chain = net_of((0..4).map(cell).collect(), &[(0, 1), (1, 2), (2, 3)], |i| 1.1 + 0.1 * i as f64, |i| SPEEDS[i], |_| 0);
+                let mut c = dist_cfg(chain, "Meters", 0.0);
+                c.astar = k % 2 == 0;
+                c.frontier = Some(FCfg::Vehicle { rows: vec![(1, KINDS[kind].0.to_string(), lim, unit.to_string())] });
+                let mut q = plain_q(0, Some(3));
+                q.extra = ex(&[("vehicle_parameters", v.query())]);
+                out.push((format!("unit_pair_{}", if below { "below" } else { "above" }), c, q));
+            }
+        }
+    }
+    out
+}
+fn gen_frontier_case(r: &mut Rng, work: &Path) -> (String, Cfg, Qry, Vec<&'static str>) {
+    let (net, flags) = gen_net(r, true);
+    let mut c = if r.chance(2, 3) { dist_cfg(net, *r.pick(&DIST), 0.0) } else { base_cfg(net) };
+    // dijkstra or a* with the default weight factor over a consistent estimate: a search that never re-opens a vertex
+    c.astar = r.chance(1, 2);
+    c.summary = r.chance(1, 2);
+    c.route_fmt = if r.chance(1, 5) { "json".into() } else { "edge_id".into() };
+    c.tree_fmt = Some(if r.chance(1, 3) { "edge_id".into() } else { "json".into() });
+    c.edge_oriented = r.chance(1, 10);
+    let (fc, extra) = gen_frontier(r, &c.net);
+    c.frontier = Some(fc);
+    let mut q = plain_q(0, None);
+    q.extra = extra;
+    // the edges this query may not use, as the application's own model sees them (guides the choice of the end points only)
+    let forbid: Vec<usize> = match build(&c, &work.join("probe")) {
+        Ok(app) => refused_by_app(&app, &c, &query_value(&c, &q)).unwrap_or_default(),
+        Err(_) => vec![],
+    };
+    q.o = if r.chance(3, 4) { pick_origin(r, &c, &forbid) } else { r.below(if c.edge_oriented { c.net.edges.len() } else { c.net.coords.len() } as u64) as usize };
+    if !r.chance(1, 5) || c.edge_oriented {
+        q.d = Some(pick_target(r, &c, &forbid, q.o, 80));
+    }
+    (if c.edge_oriented { "random_edge_oriented".to_string() } else { "random".to_string() }, c, q, flags)
+}
+
+// ------------------------------------------------------------------------------------------ app_limits (C10)
+
+const LHEADER: &str = "From Coq Require Import ZArith NArith QArith List String Floats.\nFrom RC Require Import Base.Show Base.Num Base.Res Base.Json Model.Search Model.SearchRun Model.E2ERun.\nImport ListNotations.\nOpen Scope nat_scope.";
+const GENEROUS: &str = "1:00:00";
+
+/// what one response of a sweep shows: status, the explanation of a 'terminated' error, iterations (summary plugin),
+/// tree entries (key vertex = far end of the edge, terminal vertex, edge), every route's edge ids, digest of the rest
+#[derive(Clone, Debug, PartialEq)]
+struct LObs {
+    status: String,
+    msg: String,
+    iters: u64,
+    trees: Vec<Vec<(usize, usize, usize)>>,
+    routes: Vec<Vec<usize>>,
+    digest: u64,
+}
+const TERMINATED_MARK: &str = "query terminated due to ";
+fn lobs_of(c: &Cfg, out: &RunOutcome) -> (LObs, Resp) {
+    let r = parse_response(out);
+    let mut o = LObs { status: r.status.clone(), msg: String::new(), iters: 0, trees: vec![], routes: vec![], digest: 0 };
+    if r.status == "err" || r.status == "terminated" {
+        if let Some(i) = r.err.find(TERMINATED_MARK) {
+            o.status = "terminated".into();
+            o.msg = r.err[i + TERMINATED_MARK.len()..].to_string();
+        } else {
+            o.status = "err".into();
+        }
+    }
+    if r.status != "Ok" {
+        return (o, r);
+    }
+    let mut malformed = r.malformed.clone();
+    // several trees (k-shortest-paths) are rendered as an array of arrays: not looked at (tree output is off there)
+    malformed.retain(|m| !(c.ksp.is_some() && m == "tree element"));
+    let routes = parse_routes(&r.raw, &mut malformed);
+    o.iters = r.raw.get("iterations").and_then(|x| x.as_u64()).unwrap_or(0);
+    if r.has_tree && c.ksp.is_none() {
+        let mut t: Vec<(usize, usize, usize)> = r.tree.iter().map(|(p, e, _)| (c.net.edges.get(*e).map(|x| x.1).unwrap_or(usize::MAX >> 8), p.unwrap_or(usize::MAX >> 8), *e)).collect();
+        t.sort();
+        o.trees = vec![t];
+    }
+    o.routes = routes.iter().map(|x| x.path.clone()).collect();
+    // everything else the response says (states, costs, counters), in a canonical order
+    let mut tree_states: Vec<String> = r.tree.iter().map(|(p, e, st)| format!("{:?}/{}/{}", p, e, show_list(st, |x| show_f64(*x)))).collect();
+    tree_states.sort();
+    let rest = format!(
+        "{}|{}|{:?}|{:?}|{}|{}",
+        routes.iter().map(|x| format!("{}:{}", show_kv(&x.summary), show_list(&x.recs, |et| format!("{}:{}:{}", show_f64(et.access_cost.as_f64()), show_f64(et.traversal_cost.as_f64()), show_list(&et.result_state, |v| show_f64(v.0)))))).collect::<Vec<_>>().join(";"),
+        show_kv(&r.cost),
+        r.route_edges,
+        r.tree_size,
+        tree_states.join(";"),
+        malformed.join("+")
+    );
+    o.digest = fnv(&rest) >> 2;
+    (o, r)
+}
+fn show_lobs(o: &LObs) -> String {
+    if o.status == "Ok" {
+        format!(
+            "Ok it={} trees={} routes={} d={}",
+            o.iters,
+            show_list(&o.trees, |t| show_list(t, |(v, p, e)| format!("({},{},{})", v, p, e))),
+            show_list(&o.routes, |r| show_list(r, |e| e.to_string())),
+            o.digest
+        )
+    } else if o.status == "terminated" {
+        format!("T[{}]", o.msg)
+    } else {
+        o.status.clone()
+    }
+}
+fn coq_lobs(o: &LObs) -> String {
+    format!(
+        "(E2E.mk_obs {} {} {} {} {} {}%Z)",
+        coq_string(&o.status),
+        coq_string(&o.msg),
+        o.iters,
+        coq_list(&o.trees, |t| coq_list(t, |(v, p, e)| format!("({}, {}, {})", v, p, e))),
+        coq_list(&o.routes, |r| coq_list(r, |e| e.to_string())),
+        o.digest
+    )
+}
+/// the same query on the core API, on THIS thread, under the instance the application builds for it, with the counters
+/// of every limit test recorded (hook H2 is per thread; the application searches on rayon workers): the unlimited
+/// run's counters.  Returns (counters, status, routes).
+fn core_counters(app: &Arc<CompassApp>, c: &Cfg, s: &Sem, req: &Value) -> (Vec<(usize, u64)>, String, Vec<Vec<usize>>) {
+    use routee_compass_core::model::termination::termination_model::verif_clock;
+    let app2 = app.clone();
+    let req2 = req.clone();
+    let (o, d, eo) = (s.o, s.d, c.edge_oriented);
+    verif_clock::start_test_trace();
+    let res = catch(AssertUnwindSafe(move || {
+        let si = app2.search_app.build_search_instance(&req2).map_err(|e| sk::classify_error(&e))?;
+        let alg = &app2.search_app.search_algorithm;
+        let out = if eo {
+            alg.run_edge_oriented(EdgeId(o), d.map(EdgeId), &req2, &Direction::Forward, &si)
+        } else {
+            alg.run_vertex_oriented(VertexId(o), d.map(VertexId), &req2, &Direction::Forward, &si)
+        };
+        out.map(|x| x.routes.iter().map(|rt| rt.iter().map(|et| et.edge_id.0).collect::<Vec<usize>>()).collect::<Vec<_>>()).map_err(|e| sk::classify_error(&e))
+    }));
+    let trace = verif_clock::take_test_trace();
+    match res {
+        Err(_) => (trace, "Panic".into(), vec![]),
+        Ok(Err(cls)) => (trace, if cls.starts_with("err") { "err".into() } else { cls }, vec![]),
+        Ok(Ok(routes)) => (trace, "Ok".into(), routes),
+    }
+}
+/// limits 0..=hi; when that is more than `cap` values keep both ends and a random sample of the middle
+fn limit_range(rng: &mut Rng, hi: u64, cap: usize) -> Vec<u64> {
+    let all: Vec<u64> = (0..=hi).collect();
+    if all.len() <= cap {
+        return all;
+    }
+    let mut keep: Vec<u64> = vec![0, 1, 2];
+    for x in hi.saturating_sub(4)..=hi {
+        keep.push(x);
+    }
+    while keep.len() < cap {
+        keep.push(3 + rng.below(hi - 7));
+    }
+    keep.sort();
+    keep.dedup();
+    keep
+}
+/// the sweep of [termination] sections of one case
+fn gen_limit_sweep(rng: &mut Rng, needed_it: u64, needed_sz: u64, cap: usize) -> Vec<Value> {
+    let mut js: Vec<Value> = vec![];
+    for l in limit_range(rng, needed_it + 2, cap) {
+        js.push(json!({"type": "iterations", "limit": l}));
+    }
+    for l in limit_range(rng, needed_sz + 2, cap) {
+        js.push(json!({"type": "solution_size", "limit": l}));
+    }
+    let (a, b) = (rng.below(needed_it + 2), rng.below(needed_sz + 2));
+    js.push(json!({"type": "combined", "models": [{"type": "iterations", "limit": a}, {"type": "solution_size", "limit": b}]}));
+    js.push(json!({"type": "combined", "models": [{"type": "solution_size", "limit": needed_sz}, {"type": "iterations", "limit": needed_it}]}));
+    js.push(json!({"type": "combined", "models": [{"type": "solution_size", "limit": 0}, {"type": "iterations", "limit": needed_it + 1}]}));
+    js.push(json!({"type": "Iterations", "limit": rng.below(needed_it + 2)}));
+    let f = 1 + rng.below(4);
+    js.push(json!({"type": "query_runtime", "limit": GENEROUS, "frequency": f}));
+    js.push(json!({"type": "combined", "models": [{"type": "query_runtime", "limit": GENEROUS, "frequency": f}, {"type": "iterations", "limit": a}]}));
+    js
+}
+fn limit_kind(j: &Value) -> String {
+    let t = j["type"].as_str().unwrap_or("?").to_lowercase();
+    if t == "combined" {
+        let inner: Vec<String> = j["models"].as_array().map(|a| a.iter().map(limit_kind).collect()).unwrap_or_default();
+        format!("combined[{}]", inner.join("+"))
+    } else {
+        t
+    }
+}
+
+fn add_limits(cx: &mut Ctx, fam: &str, c0: &Cfg, q: &Qry, sweep: Option<Vec<Value>>, rng: &mut Rng) {
+    let id = cx.st.next_id();
+    // ---- the unlimited application: [termination] = combined of nothing
+    let mut cu = c0.clone();
+    cu.term = Some(json!({"type": "combined", "models": []}));
+    let app_u = match build(&cu, &cx.work.join(format!("c{}u", id))) {
+        Ok(a) => a,
+        Err(e) => return build_failed2(cx, fam, &cu, q, &e, &["S"]),
+    };
+    let query = query_value(&cu, q);
+    let out_u = run_watchdog(&app_u, vec![query.clone()], None, WATCHDOG_MS);
+    let (unl, ru) = lobs_of(&cu, &out_u);
+    let s = semantics(&cu, q, &ru);
+    cx.last_err = ru.err.clone();
+    let (trace, core_status, core_routes) = core_counters(&app_u, &cu, &s, &query);
+    // the direct run must be the application's run: same status, same routes (its counters stand for the application's)
+    let core = if core_status == unl.status || (unl.status == "err" && core_status == "Ok" && core_routes.iter().all(|r| r.is_empty())) {
+        if unl.status != "Ok" || core_routes == unl.routes { "agree".to_string() } else { format!("differ:routes core={:?}", core_routes) }
+    } else {
+        format!("differ:core={} app={}", core_status, unl.status)
+    };
+    let needed_it = trace.iter().map(|(_, i)| *i + 1).max().unwrap_or(0);
+    let needed_sz = trace.iter().map(|(z, _)| *z as u64).max().unwrap_or(0);
+    let js = sweep.unwrap_or_else(|| gen_limit_sweep(rng, needed_it, needed_sz, 9));
+    // ---- one application per configured limit
+    let mut shown: Vec<String> = vec![];
+    let mut coq_cs: Vec<String> = vec![];
+    let mut n_term = 0usize;
+    for (i, j) in js.iter().enumerate() {
+        let mut cj = c0.clone();
+        cj.term = Some(j.clone());
+        let label = show_json(j, false);
+        match build(&cj, &cx.work.join(format!("c{}_{}", id, i))) {
+            Err(e) => {
+                shown.push(format!("{} => BUILD-FAILED {}", label, e.replace('\n', " ").chars().take(120).collect::<String>()));
+                cx.st.count("entry:build_failed");
+            }
+            Ok(app) => {
+                let out = run_watchdog(&app, vec![query.clone()], None, WATCHDOG_MS);
+                let (o, _) = lobs_of(&cj, &out);
+                cx.st.count(&format!("entry:{}", if o.status == "terminated" { "terminated" } else if o == unl { "same_as_unlimited" } else { "other" }));
+                cx.st.count(&format!("kind:{}", limit_kind(j)));
+                if o.status == "terminated" {
+                    n_term += 1;
+                    for k in ["iteration limit", "solution size limit", "runtime limit"] {
+                        if o.msg.contains(k) {
+                            cx.st.count(&format!("explanation:{}", k));
+                        }
+                    }
+                }
+                shown.push(format!("{} => {}", label, if o == unl { "=".to_string() } else { show_lobs(&o) }));
+                coq_cs.push(format!("({}, {})", coq_json(j), if o == unl { "u".to_string() } else { coq_lobs(&o) }));
+            }
+        }
+        let _ = std::fs::remove_dir_all(cx.work.join(format!("c{}_{}", id, i)));
+    }
+    let head = format!("U{{{} tr={}}}", show_lobs(&unl), show_list(&trace, |(z, i)| format!("({},{})", z, i)));
+    let payload = format!("{} core={} {}", head, core, shown.join(" | "));
+    let expected = format!("{} core=agree {}", head, shown.join(" | "));
+    let term = format!(
+        "let u := {} in E2E.line_limits {}%Z {} {} {} {} u {} [{}] {}",
+        coq_lobs(&unl),
+        id,
+        cu.net.coords.len(),
+        coq_edges(&cu),
+        coq_bool(cu.edge_oriented),
+        coq_bool(cu.ksp.is_some()),
+        coq_list(&trace, |(z, i)| format!("({}, {})", z, i)),
+        coq_cs.join("; "),
+        coq_string(&expected)
+    );
+    let st = &mut cx.st;
+    st.count(&format!("family:{}", fam.split('#').next().unwrap_or(fam)));
+    st.count(&format!("unlimited_status:{}", unl.status));
+    st.count(&format!("orient:{}", if cu.edge_oriented { "edge" } else { "vertex" }));
+    st.count(&format!("alg:{}", match &cu.ksp { Some(k) if k.yens => "yens", Some(_) => "ksp_single_via", None if cu.astar => "a*", None => "dijkstra" }));
+    st.count(&format!("traversal:{}", match cu.tm { Tm::Dist(_) => "distance", Tm::Speed { .. } => "speed_table" }));
+    st.count(&format!("unlimited_tests:{}", (trace.len() + 7) / 8 * 8));
+    st.count(&format!("sweep_entries:{}", (js.len() + 3) / 4 * 4));
+    st.count(&format!("core:{}", core.split(':').next().unwrap_or("")));
+    st.count(&format!("n:{}", (cu.net.coords.len() + 7) / 8 * 8));
+    if trace.len() >= 3 && n_term >= 1 {
+        st.mark_nontrivial(&format!("{}|{}", cfg_json(c0), qry_json(q)));
+    }
+    let mut d = desc2(cx, id, fam, c0, q, &payload);
+    d["sweep"] = Value::Array(js.clone());
+    d["unlimited"] = json!(show_lobs(&unl).chars().take(200).collect::<String>());
+    cx.st.case(vec![term], vec![format!("I {} {}", id, payload)], d);
+}
+
+fn limits_cfg(net: Net, astar: bool) -> Cfg {
+    let mut c = dist_cfg(net, "Meters", 0.0);
+    c.astar = astar;
+    c.route_fmt = "edge_id".into();
+    c.tree_fmt = Some("json".into());
+    c.summary = true;
+    c
+}
+fn star_net() -> Net {
+    // vertex 0 with six neighbours (1..6), the destination 7 behind neighbour 6
+    let mut edges: Vec<(usize, usize)> = (1..=6).map(|i| (0usize, i as usize)).collect();
+    edges.push((6, 7));
+    net_of(vec![cell(9), cell(0), cell(1), cell(2), cell(8), cell(10), cell(16), cell(24)], &edges, |i| 1.05 + 0.03 * i as f64, |i| SPEEDS[i % 8], |_| 0)
+}
+fn two_way_grid(w: usize, h: usize, factor: impl Fn(usize) -> f64) -> Net {
+    let mut edges = vec![];
+    let idx = |i: usize, j: usize| j * w + i;
+    for j in 0..h {
+        for i in 0..w {
+            if i + 1 < w {
+                edges.push((idx(i, j), idx(i + 1, j)));
+                edges.push((idx(i + 1, j), idx(i, j)));
+            }
+            if j + 1 < h {
+                edges.push((idx(i, j), idx(i, j + 1)));
+                edges.push((idx(i, j + 1), idx(i, j)));
+            }
+        }
+    }
+    let coords = (0..h).flat_map(|j| (0..w).map(move |i| cell(j * 8 + i))).collect();
+    net_of(coords, &edges, factor, |i| SPEEDS[i % 8], |_| 0)
+}
+fn limits_shapes() -> Vec<(String, Cfg, Qry)> {
+    let mut out = vec![];
+    let chain = |n: usize| net_of((0..n).map(cell).collect(), &(0..n - 1).map(|i| (i, i + 1)).collect::<Vec<_>>(), |i| 1.05 + 0.02 * i as f64, |i| SPEEDS[i % 8], |_| 0);
+    for astar in [false, true] {
+        out.push(("chain".to_string(), limits_cfg(chain(6), astar), plain_q(0, Some(5))));
+        out.push(("chain_no_destination".to_string(), limits_cfg(chain(5), astar), plain_q(0, None)));
+        out.push(("chain_unreachable".to_string(), limits_cfg(chain(5), astar), plain_q(2, Some(0))));
+        out.push(("star_degree_six".to_string(), limits_cfg(star_net(), astar), plain_q(0, Some(7))));
+        out.push(("star_degree_six_no_destination".to_string(), limits_cfg(star_net(), astar), plain_q(0, None)));
+        out.push(("zigzag".to_string(), limits_cfg(zig_net(), astar), plain_q(0, Some(4))));
+        out.push(("neighbour_destination".to_string(), limits_cfg(chain(4), astar), plain_q(1, Some(2))));
+        let mut eo = limits_cfg(chain(7), astar);
+        eo.edge_oriented = true;
+        out.push(("edge_oriented_chain".to_string(), eo, plain_q(0, Some(5))));
+        let mut sp = base_cfg(zig_net());
+        sp.astar = astar;
+        sp.route_fmt = "json".into();
+        out.push(("speed_table_zigzag".to_string(), sp, plain_q(4, Some(0))));
+        // k-shortest-paths on top: the limit applies to every sub-search
+        for (k, sim) in [(1usize, None), (3, None), (3, Some(KSim::EdgeId(2)))] {
+            let mut kc = limits_cfg(two_way_grid(3, 2, |i| 1.05 + 0.013 * i as f64), astar);
+            kc.tree_fmt = None;
+            kc.ksp = Some(KspCfg { yens: false, k, sim, term: None });
+            out.push((format!("ksp_single_via_k{}", k), kc, plain_q(0, Some(5))));
+        }
+        let mut yc = limits_cfg(chain(5), astar);
+        yc.tree_fmt = None;
+        yc.ksp = Some(KspCfg { yens: true, k: 1, sim: None, term: None });
+        out.push(("yens_k1".to_string(), yc, plain_q(0, Some(4))));
+    }
+    out
+}
+fn gen_limits_case(r: &mut Rng) -> (String, Cfg, Qry, Vec<&'static str>) {
+    let (net, flags) = gen_net(r, true);
+    let mut c = if r.chance(3, 4) { limits_cfg(net, r.chance(1, 2)) } else { Cfg { astar: r.chance(1, 2), ..base_cfg(net) } };
+    c.route_fmt = if r.chance(1, 4) { "json".into() } else { "edge_id".into() };
+    c.edge_oriented = r.chance(1, 8);
+    let ksp = !c.edge_oriented && r.chance(1, 5);
+    if ksp {
+        c.tree_fmt = None;
+        c.ksp = Some(KspCfg { yens: false, k: 1 + r.below(3) as usize, sim: if r.chance(1, 2) { Some(KSim::EdgeId(1 + r.below(3) as usize)) } else { None }, term: None });
+    }
+    let mut q = plain_q(0, None);
+    q.o = pick_origin(r, &c, &[]);
+    if ksp || c.edge_oriented || !r.chance(1, 5) {
+        q.d = Some(pick_target(r, &c, &[], q.o, 85));
+    }
+    (if ksp { "random_ksp".to_string() } else { "random".to_string() }, c, q, flags)
+}
+
+// ------------------------------------------------------------------------------------------ app_ksp (C13)
+
+const KHEADER: &str = "From Coq Require Import ZArith QArith List String Floats.\nFrom RC Require Import Base.Show Base.Num Model.Search Model.SearchRun Model.Ksp Model.KspSpec Model.KspRun Model.E2ERun.\nImport ListNotations.\nOpen Scope nat_scope.";
+
+fn coq_ksim_f(s: &KSim) -> String {
+    match s {
+        KSim::AcceptAll => "Ksp.SAcceptAll".into(),
+        KSim::EdgeId(i) => format!("(Ksp.SEdgeIdCosine {})", coq_f64(THRESHOLDS[*i].0)),
+        KSim::Distance(i) => format!("(Ksp.SDistanceCosine {})", coq_f64(THRESHOLDS[*i].0)),
+    }
+}
+fn coq_ksim_q(s: &KSim) -> String {
+    match s {
+        KSim::AcceptAll => "(@Ksp.SAcceptAll Q)".into(),
+        KSim::EdgeId(i) => format!("(Ksp.SEdgeIdCosine ({} # {})%Q)", THRESHOLDS[*i].1, THRESHOLDS[*i].2),
+        KSim::Distance(i) => format!("(Ksp.SDistanceCosine ({} # {})%Q)", THRESHOLDS[*i].1, THRESHOLDS[*i].2),
+    }
+}
+/// the query's "k" as the model's query_k
+fn coq_qk(q: &Qry) -> (String, Option<usize>) {
+    match q.extra.get("k") {
+        None => ("Ksp.QKAbsent".into(), None),
+        Some(v) => match v.as_u64() {
+            Some(k) => (format!("(Ksp.QKNat {})", k), Some(k as usize)),
+            None => ("Ksp.QKBad".into(), None),
+        },
+    }
+}
+/// number of routes of the same query under the default AcceptAll: the application's own instance, the configured
+/// algorithm section without its similarity key, on the core API
+fn accept_all_count(app: &Arc<CompassApp>, c: &Cfg, k: &KspCfg, s: &Sem, req: &Value) -> Option<usize> {
+    use routee_compass_core::algorithm::search::search_algorithm::SearchAlgorithm;
+    let mut under = json!({"type": if c.astar { "a*" } else { "dijkstra" }});
+    if let (true, Some(w)) = (c.astar, c.cfg_wf) {
+        under["weight_factor"] = json!(w);
+    }
+    let alg_json = ksp_algorithm_json(k, under, false);
+    let (app2, req2, o, d) = (app.clone(), req.clone(), s.o, s.d);
+    call_watchdog_local(
+        move || {
+            let alg: SearchAlgorithm = serde_json::from_value(alg_json).ok()?;
+            let si = app2.search_app.build_search_instance(&req2).ok()?;
+            alg.run_vertex_oriented(VertexId(o), d.map(VertexId), &req2, &Direction::Forward, &si).ok().map(|x| x.routes.len())
+        },
+        WATCHDOG_MS,
+    )
+    .flatten()
+}
+fn call_watchdog_local<T: Send + 'static>(f: impl FnOnce() -> T + Send + 'static, ms: u64) -> Option<T> {
+    verif_harness::appkit::call_watchdog(f, ms).and_then(|r| r.ok())
+}
+
+fn add_ksp(cx: &mut Ctx, fam: &str, c: &Cfg, q: &Qry) {
+    let id = cx.st.next_id();
+    let kc = c.ksp.clone().expect("app_ksp case without a k-shortest-paths section");
+    let app = match build(c, &cx.work.join(format!("c{}", id))) {
+        Ok(a) => a,
+        Err(e) => return build_failed2(cx, fam, c, q, &e, &["S"]),
+    };
+    let query = query_value(c, q);
+    let out = run_watchdog(&app, vec![query.clone()], None, WATCHDOG_MS);
+    let r = parse_response(&out);
+    let s = semantics(c, q, &r);
+    cx.last_err = r.err.clone();
+    let mut malformed: Vec<String> = r.malformed.iter().filter(|m| *m != "route is neither object nor null").cloned().collect();
+    let routes = if r.status == "Ok" { parse_routes(&r.raw, &mut malformed) } else { vec![] };
+    // status as the checker names it
+    let status = match r.status.as_str() {
+        "err" if r.err.contains("without destination") || r.err.contains("user supplied k value") => "err:build".to_string(),
+        "err" if r.err.contains(TERMINATED_MARK) => "terminated".to_string(),
+        x => x.to_string(),
+    };
+    let init = match c.state.first() {
+        Some((_, Feat::Distance(_, i))) => *i,
+        _ => 0.0,
+    };
+    // the world the checker judges against: edge cost = edge length in meters (the distance model's only feature, weight 1)
+    let mut w = sk::World::new(c.net.coords.len(), c.net.edges.iter().map(|e| (e.0, e.1)).collect(), c.net.edges.iter().map(|e| e.2).collect());
+    w.init = init;
+    let o = sk::Outcome {
+        status: status.clone(),
+        iters: r.raw.get("iterations").and_then(|x| x.as_u64()).unwrap_or(0),
+        trees: vec![],
+        routes: routes
+            .iter()
+            .map(|ro| {
+                if ro.recs.len() == ro.path.len() {
+                    ro.recs.iter().map(|et| sk::Hop { edge: et.edge_id.0, access: et.access_cost.as_f64(), trav: et.traversal_cost.as_f64(), state: et.result_state.first().map(|x| x.0).unwrap_or(f64::NAN) }).collect()
+                } else {
+                    ro.path.iter().map(|e| sk::Hop { edge: *e, access: 0.0, trav: 0.0, state: f64::NAN }).collect()
+                }
+            })
+            .collect(),
+    };
+    // each route's traversal_summary is its own last state
+    for (i, ro) in routes.iter().enumerate() {
+        let last = ro.recs.last().and_then(|et| et.result_state.first().map(|x| x.0));
+        let summ = ro.summary.iter().find(|(k, _)| k == "distance").map(|x| x.1);
+        if last.is_none() || summ.map(|x| x.to_bits()) != last.map(|x| x.to_bits()) {
+            malformed.push(format!("traversal_summary of route {} is not its last state", i));
+        }
+    }
+    if let Some(re) = r.route_edges {
+        if r.status == "Ok" && re as usize != routes.iter().map(|x| x.path.len()).sum::<usize>() {
+            malformed.push("route_edges is not the number of route edges".into());
+        }
+    }
+    let sim = kc.sim.clone().unwrap_or(KSim::AcceptAll);
+    let aa = if kc.yens || sim == KSim::AcceptAll || status != "Ok" { Some(o.routes.len()) } else { accept_all_count(&app, c, &kc, &s, &query) };
+    let pi = if s.o < w.n { sk::true_dist(&w, sk::Dir::Reverse, s.o) } else { vec![None; w.n] };
+    let (qk, qk_nat) = coq_qk(q);
+    let k_eff = if q.extra.contains_key("k") { qk_nat } else { Some(kc.k) };
+    let kq = format!(
+        "(KR.mkKQ FN {} {} {} {} {} {} {} {} {})",
+        if kc.yens { "Ksp.KYens" } else { "Ksp.KSingleVia" },
+        if c.astar { format!("(SR.AAStar FN {})", coq_opt(&c.cfg_wf, |x| coq_f64(*x))) } else { "(SR.ADijkstra FN)".to_string() },
+        coq_opt(&q.wf, |x| coq_f64(*x)),
+        kc.k,
+        qk,
+        match &kc.term { None | Some(KTerm::Exact) => "Ksp.KExact".to_string(), Some(KTerm::MaxIteration(m)) => format!("(Ksp.KMaxIteration {})", m), Some(KTerm::Factor(f)) => format!("(Ksp.KFactor {})", f) },
+        coq_ksim_f(&sim),
+        s.o,
+        nat_opt(&s.d)
+    );
+    let mut payload = format!("{} aa={}", sk::show_outcome(&o, 1), aa.map(|x| x.to_string()).unwrap_or("?".into()));
+    let expected = payload.clone();
+    if !malformed.is_empty() || aa.is_none() || matches!(r.status.as_str(), "RunErr" | "bad") {
+        payload += &format!(" shape=bad:{}{}", malformed.join("+"), if aa.is_none() { "+no AcceptAll count" } else { "" });
+    }
+    // the underlying search is least-cost: Dijkstra, or A* over the consistent great-circle estimate with factor <= 1
+    let optimal = !c.astar || c.cfg_wf.map(|x| x <= 1.0).unwrap_or(true) && q.wf.map(|x| x <= 1.0).unwrap_or(true);
+    let term = format!(
+        "E2E.line_ksp {}%Z {} {} {} {} {} {} {} {}",
+        id,
+        sk::coq_world(&w, sk::NumKind::F),
+        kq,
+        coq_ksim_q(&sim),
+        coq_list(&pi, |x| coq_opt(x, |f| coq_f64(*f))),
+        coq_bool(optimal),
+        sk::coq_outcome(&o, sk::NumKind::F),
+        aa.unwrap_or(0),
+        coq_string(&expected)
+    );
+    let st = &mut cx.st;
+    st.count(&format!("family:{}", fam.split('#').next().unwrap_or(fam)));
+    st.count(&format!("status:{}", status));
+    st.count(&format!("alg:{}", if kc.yens { "yens" } else { "ksp_single_via" }));
+    st.count(&format!("under:{}", if c.astar { "a*" } else { "dijkstra" }));
+    st.count(&format!("k:{}", k_eff.map(|k| k.min(7).to_string()).unwrap_or("bad".into())));
+    st.count(&format!("k_from:{}", if q.extra.contains_key("k") { "query" } else { "config" }));
+    st.count(&format!("sim:{}", match &kc.sim { None => "default".to_string(), Some(KSim::AcceptAll) => "accept_all".to_string(), Some(KSim::EdgeId(i)) => format!("edge_id@{}", THRESHOLDS[*i].0), Some(KSim::Distance(i)) => format!("distance@{}", THRESHOLDS[*i].0) }));
+    st.count(&format!("term:{}", match &kc.term { None => "default".to_string(), Some(KTerm::Exact) => "exact".to_string(), Some(KTerm::MaxIteration(_)) => "max_iteration".to_string(), Some(KTerm::Factor(_)) => "factor".to_string() }));
+    st.count(&format!("routes:{}", o.routes.len().min(7)));
+    st.count(&format!("route_rendering:{}", match r.raw.get("route") { Some(Value::Array(_)) => "array", Some(Value::Object(_)) => "object", Some(Value::Null) => "null", _ => "none" }));
+    if status == "Ok" {
+        if let (Some(a), Some(k)) = (aa, k_eff) {
+            st.count(&format!("aa_minus_routes:{}", (a as i64 - o.routes.len() as i64).min(3)));
+            st.count(if o.routes.len() == k { "routes_eq_k" } else if o.routes.len() < k { "routes_lt_k" } else { "routes_gt_k" });
+        }
+        st.count(&format!("first_route_edges:{}", o.routes.first().map(|x| x.len()).unwrap_or(0).min(6)));
+    }
+    st.count(&format!("n:{}", (w.n + 7) / 8 * 8));
+    if init != 0.0 {
+        st.count("nonzero_initial_state");
+    }
+    if o.routes.len() >= 2 || status != "Ok" {
+        st.mark_nontrivial(&format!("{}|{}", cfg_json(c), qry_json(q)));
+    }
+    let mut d = desc2(cx, id, fam, c, q, &payload);
+    d["ksp"] = json!({"alg": if kc.yens { "yens" } else { "single_via" }, "k": kc.k, "qk": match q.extra.get("k") { None => json!("absent"), Some(v) => match v.as_u64() { Some(k) => json!({"nat": k}), None => json!({"bad": v}) } }});
+    cx.st.case(vec![term], vec![format!("I {} {}", id, payload)], d);
+}
+
+fn ksp_cfg(net: Net, astar: bool, init: f64, k: KspCfg) -> Cfg {
+    let mut c = dist_cfg(net, "Meters", init);
+    c.astar = astar;
+    c.route_fmt = "json".into();
+    c.tree_fmt = None;
+    c.summary = true;
+    c.ksp = Some(k);
+    c
+}
+/// 0 -> 3 three ways: 0-1-3 (short), 0-2-3, and the long direct edge; all two-way
+fn diamond_net() -> Net {
+    let edges = [(0usize, 1usize), (1, 3), (0, 2), (2, 3), (0, 3), (1, 0), (3, 1), (2, 0), (3, 2)];
+    net_of(vec![cell(0), cell(1), cell(8), cell(9)], &edges, |i| [1.05, 1.07, 1.3, 1.25, 2.0, 1.1, 1.12, 1.4, 1.45][i], |i| SPEEDS[i % 8], |_| 0)
+}
+/// shortest 0-1-2-3 along the bottom row, a parallel lane 0-4-5-6-7-3 over the top row, rungs in between
+fn two_lanes_net() -> Net {
+    two_way_grid(4, 2, |i| 1.04 + 0.017 * ((i * 7) % 11) as f64)
+}
+fn ksp_shapes() -> Vec<(String, Cfg, Qry)> {
+    let mut out: Vec<(String, Cfg, Qry)> = vec![];
+    let sv = |k: usize, sim: Option<KSim>, term: Option<KTerm>| KspCfg { yens: false, k, sim, term };
+    let with_k = |o: usize, d: Option<usize>, k: Value| {
+        let mut q = plain_q(o, d);
+        q.extra.insert("k".into(), k);
+        q
+    };
+    for astar in [false, true] {
+        for k in 1..=4 {
+            out.push((format!("diamond_k{}", k), ksp_cfg(diamond_net(), astar, 0.0, sv(k, None, None)), plain_q(0, Some(3))));
+            out.push((format!("two_lanes_k{}", k), ksp_cfg(two_lanes_net(), astar, if k % 2 == 0 { 250.0 } else { 0.0 }, sv(k, None, None)), plain_q(0, Some(3))));
+        }
+        // k from the query overrides the configured k (both ways), 0, ill-typed
+        out.push(("query_k_larger".into(), ksp_cfg(two_lanes_net(), astar, 0.0, sv(1, None, None)), with_k(0, Some(3), json!(4))));
+        out.push(("query_k_smaller".into(), ksp_cfg(two_lanes_net(), astar, 0.0, sv(5, None, None)), with_k(0, Some(3), json!(2))));
+        out.push(("query_k_one".into(), ksp_cfg(diamond_net(), astar, 0.0, sv(3, None, None)), with_k(0, Some(3), json!(1))));
+        out.push(("query_k_zero".into(), ksp_cfg(diamond_net(), astar, 0.0, sv(3, None, None)), with_k(0, Some(3), json!(0))));
+        out.push(("query_k_string".into(), ksp_cfg(diamond_net(), astar, 0.0, sv(3, None, None)), with_k(0, Some(3), json!("3"))));
+        out.push(("query_k_float".into(), ksp_cfg(diamond_net(), astar, 0.0, sv(3, None, None)), with_k(0, Some(3), json!(2.0))));
+        // every similarity function and threshold from the configuration
+        for (i, _) in THRESHOLDS.iter().enumerate() {
+            for sim in [KSim::EdgeId(i), KSim::Distance(i)] {
+                out.push((format!("two_lanes_{:?}", sim), ksp_cfg(two_lanes_net(), astar, 0.0, sv(1, Some(sim), None)), with_k(0, Some(3), json!(4))));
+            }
+        }
+        out.push(("diamond_accept_all_explicit".into(), ksp_cfg(diamond_net(), astar, 0.0, sv(3, Some(KSim::AcceptAll), Some(KTerm::Exact))), plain_q(0, Some(3))));
+        for t in [KTerm::MaxIteration(1), KTerm::MaxIteration(8), KTerm::Factor(0), KTerm::Factor(2)] {
+            out.push(("two_lanes_termination".into(), ksp_cfg(two_lanes_net(), astar, 0.0, sv(3, Some(KSim::EdgeId(3)), Some(t))), plain_q(0, Some(3))));
+        }
+        // exactly one route exists; a single edge; unreachable; no destination
+        let chain = net_of((0..5).map(cell).collect(), &[(0, 1), (1, 2), (2, 3), (3, 4)], |i| 1.05 + 0.1 * i as f64, |i| SPEEDS[i], |_| 0);
+        out.push(("only_one_route".into(), ksp_cfg(chain.clone(), astar, 0.0, sv(4, None, None)), plain_q(0, Some(4))));
+        out.push(("one_edge".into(), ksp_cfg(chain.clone(), astar, 0.0, sv(3, None, None)), plain_q(1, Some(2))));
+        out.push(("unreachable".into(), ksp_cfg(chain.clone(), astar, 0.0, sv(3, None, None)), plain_q(3, Some(0))));
+        out.push(("no_destination".into(), ksp_cfg(chain.clone(), astar, 0.0, sv(3, None, None)), plain_q(0, None)));
+        // Yen's algorithm with k = 1 only (k >= 2: known finding K_yens_k_ge_2, core check)
+        out.push(("yens_k1_diamond".into(), ksp_cfg(diamond_net(), astar, 0.0, KspCfg { yens: true, k: 1, sim: None, term: None }), plain_q(0, Some(3))));
+        out.push(("yens_k1_chain".into(), ksp_cfg(chain.clone(), astar, 0.0, KspCfg { yens: true, k: 1, sim: None, term: None }), plain_q(0, Some(4))));
+        out.push(("yens_query_k1".into(), ksp_cfg(two_lanes_net(), astar, 0.0, KspCfg { yens: true, k: 3, sim: None, term: None }), with_k(0, Some(3), json!(1))));
+    }
+    out
+}
+fn gen_ksp_case(r: &mut Rng) -> (String, Cfg, Qry, Vec<&'static str>) {
+    let (net, flags, fam) = match r.below(10) {
+        0..=3 => {
+            let (w, h) = (2 + r.below(4) as usize, 2 + r.below(3) as usize);
+            let fs: Vec<f64> = (0..4 * w * h).map(|_| 1.02 + r.below(120) as f64 / 100.0).collect();
+            (two_way_grid(w, h, |i| fs[i]), vec![], "random_grid")
+        }
+        4..=6 => {
+            // a random network made two-way: every edge gets a return edge of its own length
+            let (n0, _) = gen_net(r, true);
+            let mut edges: Vec<(usize, usize)> = n0.edges.iter().map(|e| (e.0, e.1)).collect();
+            let back: Vec<(usize, usize)> = edges.iter().filter(|e| e.0 != e.1).map(|e| (e.1, e.0)).collect();
+            edges.extend(back);
+            edges.truncate(120);
+            let fs: Vec<f64> = edges.iter().map(|_| 1.02 + r.below(150) as f64 / 100.0).collect();
+            (net_of(n0.coords.clone(), &edges, |i| fs[i], |i| SPEEDS[i % 8], |_| 0), vec![], "random_two_way")
+        }
+        _ => {
+            let (n, f) = gen_net(r, true);
+            (n, f, "random")
+        }
+    };
+    let yens = r.chance(1, 12);
+    let k = if yens { 1 } else { 1 + r.below(5) as usize };
+    let sim = match r.below(6) {
+        0 | 1 => None,
+        2 => Some(KSim::AcceptAll),
+        3 | 4 => Some(KSim::EdgeId(r.below(5) as usize)),
+        _ => Some(KSim::Distance(r.below(5) as usize)),
+    };
+    let term = match r.below(8) {
+        0 => Some(KTerm::Exact),
+        1 => Some(KTerm::MaxIteration(r.below(8))),
+        2 => Some(KTerm::Factor(r.below(4))),
+        _ => None,
+    };
+    let mut c = ksp_cfg(net, r.chance(1, 2), *r.pick(&[0.0, 0.0, 0.0, 125.0, 1000.0]), KspCfg { yens, k, sim, term });
+    if c.astar && r.chance(1, 6) {
+        c.cfg_wf = Some(*r.pick(&[0.5, 1.0]));
+    }
+    c.summary = r.chance(3, 4);
+    let mut q = plain_q(0, None);
+    q.o = pick_origin(r, &c, &[]);
+    q.d = Some(pick_target(r, &c, &[], q.o, 92));
+    if r.chance(1, 3) {
+        q.extra.insert("k".into(), json!(if yens { 1 } else { 1 + r.below(6) }));
+    }
+    (fam.to_string(), c, q, flags)
+}
+
 // ------------------------------------------------------------------------------------------ probe / main
 
 fn probe(out: &Path) {
@@ -1566,6 +2879,8 @@ fn add(cx: &mut Ctx, fam: &str, c: &Cfg, q: &Qry) {
     match cx.stream.as_str() {
         "app_walk" => add_walk(cx, fam, c, q),
         "app_sums" => add_sums(cx, fam, c, q),
+        "app_frontier" => add_frontier(cx, fam, c, q),
+        "app_ksp" => add_ksp(cx, fam, c, q),
         _ => add_reach(cx, fam, c, q),
     }
 }
@@ -1577,11 +2892,17 @@ fn main() {
         probe(&a.out);
         std::process::exit(0);
     }
-    if !matches!(a.stream.as_str(), "app_walk" | "app_sums" | "app_reach") {
+    if !matches!(a.stream.as_str(), "app_walk" | "app_sums" | "app_reach" | "app_frontier" | "app_limits" | "app_ksp") {
         eprintln!("unknown stream {}", a.stream);
         std::process::exit(2);
     }
-    let mut cx = Ctx { last_err: String::new(), st: Stream::new(&a.out, &a.stream, HEADER, a.shards), work: a.out.join("apps"), stream: a.stream.clone() };
+    let header = match a.stream.as_str() {
+        "app_frontier" => FHEADER,
+        "app_limits" => LHEADER,
+        "app_ksp" => KHEADER,
+        _ => HEADER,
+    };
+    let mut cx = Ctx { last_err: String::new(), st: Stream::new(&a.out, &a.stream, header, a.shards), work: a.out.join("apps"), stream: a.stream.clone() };
     if let Some(p) = &a.replay {
         cx.st.full = true;
         let v: Value = serde_json::from_str(&std::fs::read_to_string(p).unwrap()).unwrap();
@@ -1593,7 +2914,12 @@ fn main() {
             let c = cfg_from(&case["cfg"]);
             let q = qry_from(&case["qry"]);
             let fam = case.get("corpus").and_then(|x| x.as_str()).map(|x| format!("corpus:{}", x)).unwrap_or("replay".to_string());
-            add(&mut cx, &fam, &c, &q);
+            if a.stream == "app_limits" {
+                let sweep = case.get("sweep").and_then(|x| x.as_array()).cloned();
+                add_limits(&mut cx, &fam, &c, &q, sweep, &mut Rng::new(0));
+            } else {
+                add(&mut cx, &fam, &c, &q);
+            }
         }
         cx.st.finish();
         let _ = std::fs::remove_dir_all(&cx.work);
@@ -1603,23 +2929,40 @@ fn main() {
     let fams: Vec<(String, Cfg, Qry)> = match a.stream.as_str() {
         "app_walk" => converted_boundaries(true),
         "app_sums" => sums_shapes(),
+        "app_frontier" => frontier_shapes(),
+        "app_limits" => limits_shapes(),
+        "app_ksp" => ksp_shapes(),
         _ => reach_shapes().into_iter().chain(converted_boundaries(false)).collect(),
     };
+    let mut rng = Rng::new(a.seed);
     for (name, c, q) in &fams {
         if cx.st.next_id() >= a.n {
             break;
         }
-        add(&mut cx, name, c, q);
+        if a.stream == "app_limits" {
+            let mut r = rng.fork();
+            add_limits(&mut cx, name, c, q, None, &mut r);
+        } else {
+            add(&mut cx, name, c, q);
+        }
     }
     // ---- random networks, a few queries each
-    let mut rng = Rng::new(a.seed);
     while cx.st.next_id() < a.n {
         let mut r = rng.fork();
-        let (fam, c, q, flags) = gen_case(&mut r, &a.stream);
+        let (fam, c, q, flags) = match a.stream.as_str() {
+            "app_frontier" => gen_frontier_case(&mut r, &cx.work),
+            "app_limits" => gen_limits_case(&mut r),
+            "app_ksp" => gen_ksp_case(&mut r),
+            _ => gen_case(&mut r, &a.stream),
+        };
         for f in &flags {
             cx.st.count(&format!("forced:{}", f));
         }
-        add(&mut cx, &fam, &c, &q);
+        if a.stream == "app_limits" {
+            add_limits(&mut cx, &fam, &c, &q, None, &mut r);
+        } else {
+            add(&mut cx, &fam, &c, &q);
+        }
     }
     cx.st.finish();
     let _ = std::fs::remove_dir_all(&cx.work);
